@@ -206,7 +206,7 @@ def mutated_ids(body):
         if t is not None and t.get('k') == 'DeclRefExpr': out.add(t.get('id'))
     return out
 
-def pure_aliases(body):
+def pure_aliases(body, allow_const_calls=False):
     """{id: init expr} for locals that are declared once with a side-effect-free initialiser over never-modified variables and are never
     modified themselves: replacing a use by the initialiser does not change the meaning of the function."""
     mut = mutated_ids(body)
@@ -225,6 +225,7 @@ def pure_aliases(body):
         for y in walk_unfolded(x['init']):
             k = y.get('k')
             if k in CALLS:
+                if allow_const_calls and (y.get('cconst') or callee_name(y) in ('operator bool', 'operator==', 'operator!=', 'operator<', 'operator>', 'operator<=', 'operator>=', 'size', 'length', 'empty', '__builtin_expect')): continue
                 if callee_name(y) not in ('size', 'length') or y.get('args'): ok = False; break
             elif k in ('CXXConstructExpr', 'CXXTemporaryObjectExpr', 'LambdaExpr', 'CXXNewExpr', 'InitListExpr'): ok = False; break
             elif k == 'DeclRefExpr' and y.get('dk') in ('Var', 'ParmVar') and y.get('id') in mut: ok = False; break
@@ -245,6 +246,7 @@ def canon(e, aliases=None, neg=False, depth=0):
     if k in TRANSPARENT or k in ('CXXDefaultArgExpr', 'ExprWithCleanups', 'MaterializeTemporaryExpr', 'CXXBindTemporaryExpr'):
         return canon(e.get('sub'), aliases, neg, d)
     if k == 'DeclRefExpr' and e.get('id') in aliases:
+        if isinstance(aliases[e['id']], str): return wrapn(aliases[e['id']])      # a value already in canonical form (path summaries)
         return canon(aliases[e['id']], aliases, neg, d)
     if k == 'UnaryOperator' and e.get('op') == '!':
         return canon(e.get('sub'), aliases, not neg, d)
@@ -305,3 +307,79 @@ def is_alias_decl(stmt, aliases):
     if stmt.get('k') != 'DeclStmt': return False
     ds = [d for d in stmt.get('decls') or [] if d.get('k') == 'VarDecl']
     return bool(ds) and all(d.get('id') in aliases for d in ds)
+
+
+def path_summaries(cfg, body, max_paths=512):
+    """Symbolic summaries of a small loop-free function: the set of (path conditions, observable effects in order, returned value),
+    one per path, with locals replaced by the value they hold on that path and conditional expressions split into paths.
+    `if (c) x = a; else x = b; return x;`, `auto x = c ? a : b; return x;` and `return c ? a : b;` all give the same set.
+    Returns None when the function is outside the fragment (loops, too many paths)."""
+    base = pure_aliases(body)
+    out = set()
+    count = [0]
+    def cases(e, env):
+        """[(extra conditions, canonical value)] for expression e: conditional expressions at the top are split"""
+        s_ = strip(e, casts=False)
+        while s_ is not None and s_.get('k') in ('ExprWithCleanups', 'MaterializeTemporaryExpr', 'CXXBindTemporaryExpr', 'ParenExpr', 'ImplicitCastExpr'):
+            s_ = s_.get('sub')
+        if s_ is not None and s_.get('k') == 'DeclRefExpr' and s_.get('id') in base and not isinstance(env.get(s_['id']), str):
+            return cases(base[s_['id']], env)
+        if s_ is not None and s_.get('k') == 'ConditionalOperator':
+            res = []
+            c = s_.get('cond')
+            for cc, v in cases(s_.get('then'), env): res.append(((canon(c, env, neg=False),) + cc, v))
+            for cc, v in cases(s_.get('else'), env): res.append(((canon(c, env, neg=True),) + cc, v))
+            return res
+        return [((), canon(e, env))]
+    def walk_(nd, env, conds, effects, onpath):
+        count[0] += 1
+        if count[0] > 20000 or len(out) > max_paths: raise OverflowError()
+        if nd.id in onpath: raise OverflowError()       # a loop
+        onpath = onpath | {nd.id}
+        k = nd.kind
+        if k == 'exit' or k == 'throw' or k == 'unreach':
+            out.add((tuple(sorted(set(conds))), tuple(effects), k))
+            return
+        if k == 'return':
+            val = nd.ast.get('val') if isinstance(nd.ast, dict) else None
+            if val is None: out.add((tuple(sorted(set(conds))), tuple(effects), 'return')); return
+            for cc, v in cases(val, env):
+                out.add((tuple(sorted(set(conds) | set(cc))), tuple(effects), 'return ' + v))
+            return
+        if k == 'cond' and isinstance(nd.ast, dict):
+            for e in nd.succ:
+                lab = getattr(e, 'label', None)
+                if getattr(e, 'kind', None) == 'edge' and lab in (True, False):
+                    walk_(e, env, conds + [canon(nd.ast, env, neg=not lab)], effects, onpath)
+            return
+        if k == 'stmt' and isinstance(nd.ast, dict):
+            a = nd.ast
+            targets = []
+            if a.get('k') == 'DeclStmt':
+                for d in a.get('decls') or []:
+                    if d.get('k') == 'VarDecl' and d.get('init') is not None and d.get('id') not in base: targets.append((d.get('id'), d['init']))
+            else:
+                x = strip(a, casts=True)
+                if x is not None and x.get('k') == 'BinaryOperator' and x.get('op') == '=' and (strip(x.get('lhs'), casts=True) or {}).get('k') == 'DeclRefExpr' and (strip(x.get('lhs'), casts=True) or {}).get('dk') == 'Var':
+                    targets.append((strip(x['lhs'], casts=True).get('id'), x.get('rhs')))
+                elif a.get('k') != 'DeclStmt':
+                    effects = effects + [canon(a, env)]
+            if targets:
+                # split on conditional values
+                def assign(i, env2, conds2):
+                    if i == len(targets):
+                        for s2 in nd.succ: walk_(s2, env2, conds2, effects, onpath)
+                        return
+                    vid, rhs = targets[i]
+                    for cc, v in cases(rhs, env2):
+                        e3 = dict(env2); e3[vid] = v
+                        assign(i + 1, e3, conds2 + list(cc))
+                assign(0, env, conds)
+                return
+        for s2 in nd.succ:
+            walk_(s2, env, conds, effects, onpath)
+    try:
+        walk_(cfg.entry, dict(base), [], [], frozenset())
+    except (OverflowError, RecursionError):
+        return None
+    return out
